@@ -189,3 +189,124 @@ Proof.
   intros W R Hm. apply model_meets_region0; auto.
   intros cap Hc. apply model_bounds_ok; [exact W|exact (region0_no_ties c cap R Hc)].
 Qed.
+
+(* ------------------------------------------------------------------ monotonicity in the capacity for
+   cases without staging accesses, lifted to the oracle clause non_increasing *)
+Lemma same_id_refl a : same_id a a = true.
+Proof. unfold same_id, same_line. rewrite Nat.eqb_refl, list_eqb_refl, Z.eqb_refl. reflexivity. Qed.
+Lemma same_id_sym a b : same_id a b = same_id b a.
+Proof. unfold same_id, same_line. rewrite Nat.eqb_sym, list_eqb_sym, Z.eqb_sym. reflexivity. Qed.
+Lemma same_id_iff a b : same_id a b = true <->
+  (fst a = fst b /\ s_pre (snd a) = s_pre (snd b) /\ s_ln (snd a) = s_ln (snd b)).
+Proof.
+  unfold same_id, same_line. rewrite !andb_true_iff, Nat.eqb_eq, list_eqb_eq, Z.eqb_eq. tauto.
+Qed.
+Lemma same_id_trans a b d : same_id a b = true -> same_id b d = true -> same_id a d = true.
+Proof.
+  rewrite !same_id_iff. intros (H1 & H2 & H3) (H4 & H5 & H6). repeat split; congruence.
+Qed.
+
+Lemma no_staging_sched c : c17_wf c = true -> has_staging c = false ->
+  forall x, In x (spec_sched c) -> s_stg (snd x) = false.
+Proof.
+  intros W H x Hx.
+  assert (Hi : (fst x < length (cbs c))%nat).
+  { rewrite (sched_spec c W) in Hx. apply in_map_iff in Hx. destruct Hx as [u [<- Hu]]. exact (UU_tag_lt c u Hu). }
+  assert (Ha : In (snd x) (spec_acc c pin_cache (nth (fst x) (cbs c) bind0))).
+  { rewrite <- (tagp_spec_sched c (fst x) W Hi). unfold tagp. apply in_map. apply filter_In. split; auto. apply Nat.eqb_refl. }
+  unfold has_staging in H.
+  destruct (s_stg (snd x)) eqn:E; auto. exfalso.
+  assert (T : existsb (fun b => existsb s_stg (spec_acc c pin_cache b)) (k_binds c) = true).
+  { apply existsb_exists. exists (nth (fst x) (cbs c) bind0). split.
+    - apply (Permutation_in _ (sort_binds_perm (k_binds c))). apply nth_In. exact Hi.
+    - apply existsb_exists. exists (snd x). auto. }
+  congruence.
+Qed.
+
+Lemma spec_min_mono c cap1 cap2 : c17_wf c = true -> has_staging c = false ->
+  0 <= cap1 -> cap1 <= cap2 -> Forall2 Z.le (spec_min c cap2) (spec_min c cap1).
+Proof.
+  intros W H H0 Hc. unfold spec_min, min_run.
+  apply (policy_monotone same_id (fun x => s_w (snd x)) (fun x => s_stg (snd x)) fst
+                         same_id_refl same_id_sym same_id_trans cap1 cap2 (k_line c)); auto.
+  - pose proof (wf_line c W). lia.
+  - apply no_staging_sched; assumption.
+Qed.
+
+Lemma combine_sum_mono ti : forall (bs : list c17_bind) (f2 f1 : list Z), Forall2 Z.le f2 f1 ->
+  sumZ (map snd (filter (fun bf : c17_bind * Z => Nat.eqb (k_t (fst bf)) ti) (combine bs f2)))
+  <= sumZ (map snd (filter (fun bf : c17_bind * Z => Nat.eqb (k_t (fst bf)) ti) (combine bs f1))).
+Proof.
+  unfold sumZ. induction bs as [|b bs IH]; intros f2 f1 H; [cbn; lia|].
+  destruct H as [|x y f2 f1 Hxy H]; [cbn; lia|]. cbn [combine filter fst].
+  specialize (IH f2 f1 H). destruct (Nat.eqb (k_t b) ti); cbn [map fold_right snd]; lia.
+Qed.
+
+Lemma total_reads_mono c cap1 cap2 : c17_wf c = true -> has_staging c = false ->
+  0 <= cap1 -> cap1 <= cap2 ->
+  sumZ (map (fun r => vz (vnth 0 r)) (spec_cache_reads c cap2))
+  <= sumZ (map (fun r => vz (vnth 0 r)) (spec_cache_reads c cap1)).
+Proof.
+  intros W H H0 Hc. pose proof (spec_min_mono c cap1 cap2 W H H0 Hc) as M. pose proof (wf_line c W) as Hl.
+  unfold spec_cache_reads, sumZ. rewrite !map_map.
+  induction (seq 0 (length (k_tensors c))) as [|ti l IH]; cbn [map fold_right]; [lia|].
+  pose proof (combine_sum_mono ti (isort_binds (k_binds c)) _ _ M) as S.
+  assert (Ex : forall fl fl' : list Z, length fl = length fl' ->
+               existsb (fun bf : c17_bind * Z => has_r (fst bf))
+                       (filter (fun bf => Nat.eqb (k_t (fst bf)) ti) (combine (isort_binds (k_binds c)) fl))
+               = existsb (fun bf : c17_bind * Z => has_r (fst bf))
+                         (filter (fun bf => Nat.eqb (k_t (fst bf)) ti) (combine (isort_binds (k_binds c)) fl'))).
+  { generalize (isort_binds (k_binds c)). induction l0 as [|b bs IHb]; intros fl fl' L; [reflexivity|].
+    destruct fl, fl'; cbn in L; try discriminate; [reflexivity|]. cbn [combine filter fst].
+    destruct (Nat.eqb (k_t b) ti); cbn [existsb fst]; rewrite (IHb fl fl') by lia; reflexivity. }
+  assert (Ll : length (spec_min c cap2) = length (spec_min c cap1)).
+  { unfold spec_min, min_run. rewrite !min_run_len. reflexivity. }
+  rewrite (Ex _ _ Ll). destruct (existsb _ _); cbn [vl vnth nth vz]; [|lia].
+  assert (k_line c * sumZ (map snd (filter (fun bf : c17_bind * Z => Nat.eqb (k_t (fst bf)) ti)
+                                           (combine (isort_binds (k_binds c)) (spec_min c cap2))))
+          <= k_line c * sumZ (map snd (filter (fun bf : c17_bind * Z => Nat.eqb (k_t (fst bf)) ti)
+                                              (combine (isort_binds (k_binds c)) (spec_min c cap1)))))
+    by (apply Z.mul_le_mono_nonneg_l; [lia|exact S]).
+  unfold sumZ in *. lia.
+Qed.
+
+Lemma wf_caps c : c17_wf c = true ->
+  forallb (Z.leb 0) (k_caps c) = true /\ sorted_by Z.leb (k_caps c) = true.
+Proof.
+  unfold c17_wf. intros H. repeat (apply andb_true_iff in H; destruct H as [H ?]).
+  repeat match goal with X : _ && _ = true |- _ => apply andb_true_iff in X; destruct X end.
+  split; assumption.
+Qed.
+
+Lemma non_increasing_map (f : Z -> Z) : forall caps, sorted_by Z.leb caps = true ->
+  (forall c1 c2, In c1 caps -> In c2 caps -> c1 <= c2 -> f c2 <= f c1) ->
+  non_increasing (map f caps) = true.
+Proof.
+  induction caps as [|x caps IH]; intros S H; [reflexivity|].
+  destruct caps as [|y caps]; [reflexivity|]. cbn [map non_increasing].
+  cbn [sorted_by] in S. apply andb_true_iff in S. destruct S as [S1 S2]. apply Z.leb_le in S1.
+  apply andb_true_iff. split.
+  - apply Z.leb_le. apply H; [left; reflexivity|right; left; reflexivity|exact S1].
+  - apply IH; auto. intros c1 c2 H1 H2. apply H; right; assumption.
+Qed.
+
+(* C17_model_meets_spec, unconditional: outside the two known-finding regions the faithful model
+   satisfies the whole oracle *)
+Theorem model_meets_spec c : c17_wf c = true -> c17_region c = 0 ->
+  c17_holds c (c17_model c) = true.
+Proof.
+  intros W R. apply model_meets_region0_mono; auto.
+  destruct (wf_caps c W) as [Pos Srt].
+  destruct (k_caps c) as [|x [|y l]] eqn:Ec; [reflexivity|reflexivity|].
+  assert (T : forallb (fun b => no_ties (spec_acc c pin_cache b)) (k_binds c) = true
+              /\ has_staging c = false).
+  { unfold c17_region in R. rewrite Ec in R.
+    destruct (forallb _ (k_binds c)); [|discriminate]. split; auto.
+    cbn [length Nat.leb andb] in R. destruct (has_staging c); [discriminate|reflexivity]. }
+  destruct T as [T St]. rewrite <- Ec in *. rewrite map_map.
+  apply non_increasing_map; auto.
+  intros c1 c2 H1 H2 Hle. unfold total_reads.
+  destruct (cache_refines_min c c1 W T) as [_ R1]. destruct (cache_refines_min c c2 W T) as [_ R2].
+  rewrite R1, R2. apply total_reads_mono; auto.
+  rewrite forallb_forall in Pos. specialize (Pos c1 H1). lia.
+Qed.
